@@ -89,8 +89,8 @@ Lemma render_desc x :
 Proof. destruct x; reflexivity. Qed.
 
 (* ---------------------------------------------------------------- _SO_columnClause *)
-Lemma fk_value_char o : gen_fk_value o = obj_id o.
-Proof. destruct o; reflexivity. Qed.
+(* (an SQLObject instance is rendered as its id, so whether the id is taken here
+   or left to sqlrepr makes no difference) *)
 Lemma fk_value_sql o : kv_sql (gen_fk_value o) = kv_sql o.
 Proof. destruct o; reflexivity. Qed.
 Lemma clause_word_char v : gen_clause_word v = match v with KNone => WIS | _ => WEQ end.
@@ -99,18 +99,55 @@ Lemma clause_and_char : gen_clause_and = true.
 Proof. reflexivity. Qed.
 
 (* ---------------------------------------------------------------- count() *)
-(* after the two assertions start and end are falsy, so the arithmetic that
-   follows them never runs *)
-Definition clean_count (ws we : pv) (d : bool) (cs cd : Z) : res pv :=
-  if truthy ws || truthy we then Err E_Assert else Ok (VInt (if d then cd else cs)).
+(* three facts about the generated count(), each proved by running it on every
+   shape of (start, end); the first two also hold once the empty-window defect
+   is repaired, the third one is the defect *)
+Ltac run_count_tac :=
+  unfold gen_count, bind, py_sub, py_min, py_or, py_not, py_is_none, toZ;
+  repeat match goal with
+         | |- context [truthy ?v] =>
+             lazymatch v with
+             | VNone => change (truthy VNone) with false
+             | VBool ?b => change (truthy (VBool b)) with b
+             | VInt ?z => change (truthy (VInt z)) with (negb (z =? 0))
+             end
+         end;
+  cbn [negb andb orb];
+  repeat match goal with
+         | |- context [if ?b then _ else _] =>
+             lazymatch b with
+             | context [if _ then _ else _] => fail
+             | _ => destruct b eqn:?
+             end
+         end; try reflexivity; try discriminate; try (exfalso; lia).
 
-Lemma count_char ws we d cs cd :
-  gen_count ws we (VBool d) (VInt cs) (VInt cd) = clean_count ws we d cs cd.
+(* no window: the number the database answers *)
+Lemma count_unsliced_char ws d cs cd :
+  truthy ws = false ->
+  gen_count ws VNone (VBool d) (VInt cs) (VInt cd) = Ok (VInt (if d then cd else cs)).
 Proof.
-  unfold gen_count, clean_count, bind.
-  destruct (truthy ws) eqn:Hs; cbn [negb orb]; [reflexivity|].
-  destruct (truthy we) eqn:He; cbn [negb orb]; [reflexivity|].
-  destruct d; cbn [truthy negb]; rewrite ?Hs, ?He; reflexivity.
+  destruct ws as [|z|b]; cbn [truthy]; intros H; [|destruct (z =? 0) eqn:E; [|discriminate]|subst b];
+    destruct d; run_count_tac.
+Qed.
+
+(* a non-zero bound: refused *)
+Lemma count_refused_char ws we d cs cd :
+  truthy ws || truthy we = true ->
+  gen_count ws we (VBool d) (VInt cs) (VInt cd) = Err E_Assert.
+Proof.
+  destruct ws as [|z|b], we as [|z'|b']; cbn [truthy orb]; intros H; try discriminate;
+    try (destruct b); try (destruct b'); try discriminate;
+    destruct d; run_count_tac.
+Qed.
+
+(* THE DEFECT (finding count_ignores_empty_window): end = 0 passes the
+   truthiness assertions and the arithmetic after them is skipped as well *)
+Lemma count_empty_window_char ws cs cd :
+  truthy ws = false ->
+  gen_count ws (VInt 0) (VBool false) (VInt cs) (VInt cd) = Ok (VInt cs).
+Proof.
+  destruct ws as [|z|b]; cbn [truthy]; intros H; [|destruct (z =? 0) eqn:E; [|discriminate]|subst b];
+    run_count_tac.
 Qed.
 
 (* ---------------------------------------------------------------- getOne() *)
@@ -120,9 +157,14 @@ Definition clean_getOne (n : Z) (nodefault : bool) : g1 :=
 
 Lemma getOne_char n nd : gen_getOne n nd = clean_getOne n nd.
 Proof.
-  unfold gen_getOne, clean_getOne. rewrite negb_involutive.
-  destruct (n =? 0); [reflexivity|].
-  replace (n >? 1) with (1 <? n) by lia. reflexivity.
+  unfold gen_getOne, clean_getOne.
+  repeat match goal with
+         | |- context [if ?b then _ else _] =>
+             lazymatch b with
+             | context [if _ then _ else _] => fail
+             | _ => destruct b eqn:?
+             end
+         end; try reflexivity; exfalso; lia.
 Qed.
 
 (* ---------------------------------------------------------------- sum/min/max/avg, accumulateMany *)
